@@ -818,7 +818,7 @@ def fragment_program(rng, stats=None):
             else:
                 funs.append((f, ("tup", None, [(None, "int")]), sh))
             continue
-        if r < 0.33 and funs:
+        if r < 0.40 and funs:
             note("function_call")
             f, psh, rsh = rng.choice(funs)
             x = var()
